@@ -15,7 +15,7 @@ from pathlib import PurePath
 import numpy as np
 
 from .. import snapshot
-from ..common import jdump, sha, rmtree
+from ..common import fork_map, fresh_dir, jdump, sha, rmtree
 from ..report import HarnessError
 
 
@@ -216,17 +216,34 @@ def op_name(op):
     return op[0] if isinstance(op, (tuple, list)) else str(op)
 
 
-def explore(make_system, cfg, validate_every=10, max_states=200000, keep=None):
+ROOT = 'g'     # every System lives in ./g relative to the working directory of its process
+
+
+def explore(make_system, cfg, validate_every=10, max_states=200000, keep=None, procs=1):
     """BFS to a fixpoint.  make_system(cfg) -> System (not yet built).
-    keep: set of oracle tags whose violations are reported (others only prune)."""
+    keep: set of oracle tags whose violations are reported (others only prune).
+    procs > 1: level-synchronous parallel expansion (children expand slices of the
+    frontier in private working directories; the coordinator owns the seen-set and
+    re-executes the one transition that leads to each genuinely new state)."""
+    base = fresh_dir('graph')
+    old_cwd = os.getcwd()
+    os.chdir(base)
+    try:
+        return _explore(make_system, cfg, validate_every, max_states, keep, procs)
+    finally:
+        os.chdir(old_cwd)
+        rmtree(base)
+
+
+def _explore(make_system, cfg, validate_every, max_states, keep, procs):
     S = make_system(cfg)
+    S.root = ROOT
     res = GraphResult()
     start_viol = S.build()
     if start_viol:
         for (sig, what, detail) in start_viol:
             res.violations.append((dict(sig, stage='start'), what,
                                    {'config': cfg, 'history': [], 'detail': detail}))
-        rmtree(S.root)
         return res
 
     def record(viols, hist):
@@ -241,7 +258,6 @@ def explore(make_system, cfg, validate_every=10, max_states=200000, keep=None):
     parent = {0: None}
     depth = {0: 0}
     record(S.invariant(), [])
-    frontier = collections.deque([0])
 
     def history(sid):
         h = []
@@ -251,40 +267,68 @@ def explore(make_system, cfg, validate_every=10, max_states=200000, keep=None):
         h.reverse()
         return h
 
-    while frontier:
-        sid = frontier.popleft()
-        S.restore(states[sid])
-        ops, disabled = S.enabled()
-        res.bound_hits += disabled
-        hist = None
-        for op in ops:
+    def expand(sids, private=False):
+        if private:                      # forked child: own directory, same relative paths
+            os.chdir(fresh_dir('lvl'))
+        out = []
+        for sid in sids:
             S.restore(states[sid])
-            r = S.step(op)
-            res.transitions += 1
-            res.outcomes[op_name(op)][r.label] += 1
-            if r.violations:
-                hist = hist if hist is not None else history(sid)
-                record(r.violations, hist + [list(op)])
-            if r.diverged:
-                res.pruned += 1
-                continue
-            st = S.capture()
-            nid = seen.get(st.canon)
-            if nid is None:
+            ops, disabled = S.enabled()
+            rows = []
+            for op in ops:
+                S.restore(states[sid])
+                r = S.step(op)
+                canon = None if r.diverged else S.capture().canon
+                rows.append((list(op), r.label, r.violations, r.diverged, canon))
+            out.append((sid, disabled, rows))
+        return out
+
+    level = [0]
+    while level and res.cap_hit is None:
+        if procs > 1 and len(level) >= 2 * procs:
+            slices = [level[i::procs] for i in range(procs)]
+            parts = fork_map(lambda sl: expand(sl, private=True), slices, procs=procs)
+            bysid = {sid: (dis, rows) for part in parts for (sid, dis, rows) in part}
+            outs = [(sid,) + bysid[sid] for sid in level]
+        else:
+            outs = expand(level)
+        nxt = []
+        for sid, disabled, rows in outs:
+            res.bound_hits += disabled
+            hist = None
+            for op, label, viols, diverged, canon in rows:
+                res.transitions += 1
+                res.outcomes[op_name(op)][label] += 1
+                if viols:
+                    hist = hist if hist is not None else history(sid)
+                    record(viols, hist + [op])
+                if diverged:
+                    res.pruned += 1
+                    continue
+                if canon in seen:
+                    continue
+                # materialise the new state in this process
+                S.restore(states[sid])
+                S.step(tuple(op))
+                st = S.capture()
+                if st.canon != canon:
+                    raise HarnessError(f'nondeterministic transition {op} from state {sid} of {cfg}')
                 nid = len(states)
-                seen[st.canon] = nid
+                seen[canon] = nid
                 states.append(st)
-                parent[nid] = (sid, list(op))
+                parent[nid] = (sid, op)
                 depth[nid] = depth[sid] + 1
                 res.max_depth = max(res.max_depth, depth[nid])
                 iv = S.invariant()
                 if iv:
                     record(iv, history(nid))
-                frontier.append(nid)
+                nxt.append(nid)
                 if len(states) >= max_states:
                     res.cap_hit = max_states
-                    frontier.clear()
                     break
+            if res.cap_hit:
+                break
+        level = nxt
     res.states = len(states)
     res.closed = res.cap_hit is None
 
@@ -295,33 +339,53 @@ def explore(make_system, cfg, validate_every=10, max_states=200000, keep=None):
         chosen = ids
     else:
         chosen = sorted(set(ids[::validate_every]) | set(deepest[:20]))
-    for sid in chosen:
-        h = history(sid)
-        S2 = make_system(cfg)
-        S2.root = S.root
-        rmtree(S.root)
-        v = S2.build()
-        if v:
-            raise HarnessError(f'start state not reproducible for {cfg}')
-        for op in h:
-            S2.step(tuple(op))
-        c = S2.capture().canon
-        if c != states[sid].canon:
-            raise HarnessError(
-                f'restore/replay mismatch in {cfg}: history {h} reaches a different state '
-                f'when executed from scratch (checkpointing is not faithful)')
-        res.validated += 1
-    # samples: a short and a deepest history
+
+    def validate(sids, private=False):
+        if private:
+            os.chdir(fresh_dir('val'))
+        n = 0
+        for sid in sids:
+            h = history(sid)
+            S2 = make_system(cfg)
+            S2.root = ROOT
+            rmtree(ROOT)
+            if S2.build():
+                raise HarnessError(f'start state not reproducible for {cfg}')
+            for op in h:
+                S2.step(tuple(op))
+            if S2.capture().canon != states[sid].canon:
+                raise HarnessError(
+                    f'restore/replay mismatch in {cfg}: history {h} reaches a different state '
+                    f'when executed from scratch (checkpointing is not faithful)')
+            n += 1
+        return n
+
+    if procs > 1 and len(chosen) >= 2 * procs:
+        res.validated = sum(fork_map(lambda sl: validate(sl, private=True),
+                                     [chosen[i::procs] for i in range(procs)], procs=procs))
+    else:
+        res.validated = validate(chosen)
     if len(states) > 1:
         res.samples = [history(min(3, len(states) - 1)), history(deepest[0])]
-    rmtree(S.root)
     return res
 
 
 def replay_history(make_system, cfg, hist, keep=None):
     """Plain re-execution of one history with no explorer around it.
     Returns the list of violations observed along the way."""
+    base = fresh_dir('replay')
+    old_cwd = os.getcwd()
+    os.chdir(base)
+    try:
+        return _replay_history(make_system, cfg, hist, keep)
+    finally:
+        os.chdir(old_cwd)
+        rmtree(base)
+
+
+def _replay_history(make_system, cfg, hist, keep):
     S = make_system(cfg)
+    S.root = ROOT
     out = []
     v = S.build()
     out += [(s, w, d) for (s, w, d) in (v or [])]
@@ -333,7 +397,6 @@ def replay_history(make_system, cfg, hist, keep=None):
             if r.diverged:
                 break
             out += S.invariant()
-    rmtree(S.root)
     if keep is not None:
         out = [x for x in out if x[0].get('oracle') in keep or x[0].get('stage') == 'start']
     return out
